@@ -78,7 +78,10 @@ def check_lines(ctx, out, names, nt):
             db, zi, t, managed = f[0].split()
             zi, t = int(zi), int(t)
             printed = unhex(f[1])
-            err, berr, bepoch, boff, voff = [int(x) for x in f[2].split()]
+            err, berr, bepoch, boff, voff, reprint = [int(x) for x in f[2].split()]
+            if not reprint:
+                ctx.violation("zdt-reprint:%s" % db, {"line": "ZDT " + f[0]},
+                              "a ZonedDateTime printed differently after another zone had used the shared processor (request before %s %s)" % (db, names[db][zi]))
             local = dtm.datetime(2000, 1, 1) + dtm.timedelta(seconds=t + voff * 60)
             want = local.strftime("%Y-%m-%dT%H:%M:%S") + fmt_off(voff) + "[" + names[db][zi] + "]"
             nt.add(printed[-40:])
@@ -86,6 +89,18 @@ def check_lines(ctx, out, names, nt):
                 ctx.violation("zdt:%s:%s" % (db, names[db][zi]), {"line": "ZDT " + f[0]},
                               "ZonedDateTime printed %r want %r; parsed back epoch %d (want %d) offset %d (want %d) err=%d" %
                               (printed, want, bepoch, t, boff, voff, berr))
+        elif k == "ZC":
+            f = body.split("|")
+            y, mo, d, h, mi, sec, off = [int(x) for x in f[0].split()]
+            printed = unhex(f[1])
+            err, berr = [int(x) for x in f[2].split()]
+            back = [int(x) for x in f[3].split()]
+            zname = "UTC" if off == 0 else fmt_off(off) + "+00:00"
+            want = "%04d-%02d-%02dT%02d:%02d:%02d%s[%s]" % (y, mo, d, h, mi, sec, fmt_off(off), zname)
+            nt.add(printed[:10])
+            if err or berr or printed != want or back != [y, mo, d, h, mi, sec, off]:
+                ctx.violation("zc:%d" % (y // 50 * 50), {"line": "ZC " + f[0]},
+                              "ZonedDateTime %s printed %r and parsed back to %r (err %d/%d)" % (want, printed, back, err, berr))
         elif k == "ZMAN":
             f = body.split("|")
             sd, dd, t = [int(x) for x in f[0].split()]
@@ -165,6 +180,11 @@ def run(ctx):
     for sd in list(range(-960, 961, 45)) + [0, 1, -1, -59]:
         for dd in (0, 60, -60, 30, 120):
             lines.append("ZMAN %d %d %d" % (sd, dd, rnd.randrange(-10**9, 10**9)))
+    # zoned date-times from components across the whole supported calendar (incl. years outside the epoch-seconds range)
+    for y in range(1873, 2128):
+        for off in (0, -30, 330, 840, -720):
+            mo = rnd.randrange(1, 13)
+            lines.append("ZC %d %d %d %d %d %d %d" % (y, mo, rnd.randrange(1, calendar.monthrange(y, mo)[1] + 1), rnd.randrange(24), rnd.randrange(60), rnd.randrange(60), off))
     # too-short strings: every proper prefix of a valid text, for each parser
     valid = {"date": "2019-12-31", "time": "23:59:58", "ldt": "2019-12-31T23:59:58", "ldtF": "2019-12-31T23:59:58",
              "off": "-07:30", "odt": "2019-12-31T23:59:58-07:30", "odtF": "2019-12-31T23:59:58-07:30",
